@@ -84,6 +84,9 @@ TRUSTED = [
     'in is C06\'s statement',
     'nuclide lists and %.15e concentrations inside the COMPOSITION blocks are '
     'C10\'s (handed to write_compositions as data)',
+    'the density a COMPOSITION block carries (DENSITY |d| / sum of the '
+    'POINT_WISE concentrations = d) is checked on the written text by the '
+    'sweep and the corpus, not proved: the rescaling itself is C10\'s',
     'harness: generators, impl.T4File reader, t4eval/mcnpref oracles (numeric '
     'sweep of the same ownership statement on real decks), PEG shim replacing '
     'TatSu',
@@ -676,7 +679,10 @@ def impl_treat_fill(cells):
     returned = []
     for key in fill_keys:
         returned.extend(conv.pot_fill(key, universes, False, False))
-    return abstract_cells(conc), conv.new_cell_key, returned
+    counter = getattr(conv, 'new_cell_key', None)
+    if counter is None:     # renamed: the counter is the number of keys handed out
+        counter = free_key + len(conc) - len(cells)
+    return abstract_cells(conc), counter, returned
 
 
 def leaves_spec(cells, key, seen=()):
@@ -919,8 +925,40 @@ def impl_comp(parser, conc_cells, keys):
     extra = [k for k in result if k not in keys]
     if extra:
         raise AssertionError(f'composition for unknown material {extra}')
-    return [(k, [c.material + '_' + c.valueOfDensity
-                 for c in result.get(k, [])]) for k in keys]
+    try:
+        return [(k, [c.material + '_' + c.valueOfDensity
+                     for c in result.get(k, [])]) for k in keys]
+    except AttributeError:
+        # the record class of the compositions was rewritten: read the names
+        # off the text the public writer produces from the same arguments
+        return comp_names_from_text(parser, conc_cells, keys)
+
+
+def comp_names_from_text(parser, conc_cells, keys):
+    import contextlib
+    import warnings
+    from t4_geom_convert.Kernel.FileHandlers.Writer.WriteT4Composition import \
+        writeT4Composition
+    buf = io.StringIO()
+    with warnings.catch_warnings(), contextlib.redirect_stdout(io.StringIO()):
+        warnings.simplefilter('ignore')
+        writeT4Composition(parser, conc_cells, buf)
+    names = {k: [] for k in keys}
+    for comp in impl.T4File(buf.getvalue()).compositions:
+        tok = c09_oracle.parse_name(comp['name'])
+        if comp['name'] != 'm0' and tok and int(tok[0]) in names:
+            names[int(tok[0])].append(comp['name'])
+    return [(k, names[k]) for k in keys]
+
+
+def pointwise_from_text(text):
+    '''[(name, [(nuclide, amount)])] of the POINT_WISE blocks of a COMPOSITION
+    text (fallback when the composition records cannot be read field by field).'''
+    out = []
+    for comp in impl.T4File(text).compositions:
+        if comp['type'] == 'POINT_WISE' and comp['name'] != 'm0':
+            out.append((comp['name'], [(a, b) for a, b in comp['items']]))
+    return out
 
 
 def ccomp(out):
@@ -1056,12 +1094,21 @@ def tie_writecomp(res, tier, rng):
             out = guarded(call)
             pw = []
             if out[0] == 'ok':
-                for key, lst in out[1][1].items():
-                    for comp in lst:
-                        if comp.typeDensity == 'POINT_WISE':
-                            pw.append((comp.material + '_' + comp.valueOfDensity,
-                                       comp.listMaterialComposition))
                 text = out[1][0]
+                try:
+                    for key, lst in out[1][1].items():
+                        for comp in lst:
+                            if comp.typeDensity == 'POINT_WISE':
+                                pw.append((comp.material + '_'
+                                           + comp.valueOfDensity,
+                                           [tuple(x) for x in
+                                            comp.listMaterialComposition]))
+                except (AttributeError, TypeError):
+                    pw = pointwise_from_text(text)
+                    if not res.extra.get('writecomp_pw_from_text'):
+                        res.extra['writecomp_pw_from_text'] = True
+                        skip_helper(res, 'tie:writecomp (concentrations read '
+                                    'from the text)', 'CCompositionT4 fields')
                 expected = f'(Ok {ctext(text)})'
                 n_blocks = text.count(' 300 ')
                 res.count(f'writecomp:blocks-{min(n_blocks, 6)}')
@@ -1306,6 +1353,14 @@ def corpus(res):
                                                     'point': list(point)}},
                               found_input=True)
         have = {c['name'] for c in t4.compositions} - {'m0'}
+        for comp in t4.compositions:
+            why = c09_oracle.block_density_failure(comp)
+            if why:
+                good = False
+                res.violation('impl-violation',
+                              f'corpus deck {name} {args}: {why}',
+                              {'input': {'deck': text, 'args': args}},
+                              found_input=True)
         orphans = [n for n, _ in t4.geomcomp if n != 'm0' and n not in have]
         if orphans:
             good = False
